@@ -160,4 +160,122 @@ theorem walkVerdict_encodeP (b : Bitmap) (hb : BitmapWf b) :
   obtain ⟨h1, _, _, _⟩ := optimize_cs b.cs hb.entries hb.keys
   exact contWf_wf _ _ hw (h1 e' he').2
 
+/-! ### rowSet -/
+
+theorem rowDelta_addRow (row : Nat) (d : Int) (rows : List (Nat × Int)) (r : Nat) :
+    rowDelta (addRow row d rows) r = rowDelta rows r + (if row = r then d else 0) := by
+  induction rows with
+  | nil =>
+    simp only [addRow, rowDelta, List.filter_cons, List.filter_nil]
+    by_cases h : row = r <;> simp [h]
+  | cons x t ih =>
+    simp only [addRow]
+    split
+    · simp only [rowDelta, List.filter_cons]
+      by_cases h : row = r <;> simp [h] <;> omega
+    · split
+      · next h1 h2 =>
+        simp only [rowDelta, List.filter_cons]
+        by_cases h : x.1 = r
+        · have : row = r := by omega
+          simp [h, this]; omega
+        · have : ¬ row = r := by omega
+          simp [h, this]
+      · simp only [rowDelta, List.filter_cons] at ih ⊢
+        by_cases h : x.1 = r
+        · simp only [h, decide_true, ↓reduceIte, List.map_cons, List.sum_cons]
+          rw [ih]; omega
+        · simp only [h, decide_false, Bool.false_eq_true, ↓reduceIte]
+          exact ih
+
+theorem rowCount_cons (rowSize : Nat) (kv : Nat × List Nat) (t : VMap) (r : Nat) :
+    rowCount rowSize (kv :: t) r = (if rowOf rowSize kv.1 = r then kv.2.length else 0) + rowCount rowSize t r := by
+  simp only [rowCount, List.filter_cons]
+  by_cases h : rowOf rowSize kv.1 = r <;> simp [h]
+
+theorem rowCount_put (m : VMap) (hm : VMapOk m) (rowSize k : Nat) (vs : List Nat) (r : Nat) :
+    rowCount rowSize (VMap.put k vs m) r + (if rowOf rowSize k = r then (oldOf m k).length else 0)
+      = rowCount rowSize m r + (if rowOf rowSize k = r then vs.length else 0) := by
+  unfold oldOf
+  induction m with
+  | nil =>
+    simp only [VMap.put, rowCount_cons]
+    simp [rowCount, VMap.get?]
+  | cons kv t ih =>
+    have hk := List.pairwise_cons.mp hm.keys
+    simp only [VMap.put]
+    split
+    · next hlt =>
+      rw [get?_none_of_lt (kv :: t) k (by
+        intro y hy
+        rcases List.mem_cons.mp hy with e | e
+        · subst e; exact hlt
+        · have := hk.1 y e; omega)]
+      simp only [rowCount_cons, Option.getD_none, List.length_nil]
+      split <;> omega
+    · split
+      · next h1 h2 =>
+        rw [get?_cons, if_pos (show kv.1 = k from h2.symm)]
+        subst h2
+        simp only [rowCount_cons, Option.getD_some]
+        split <;> omega
+      · next h1 h2 =>
+        rw [get?_cons, if_neg (show ¬ kv.1 = k by omega)]
+        have := ih hm.tail
+        simp only [rowCount_cons]
+        omega
+
+theorem importSetItem_rows (m : VMap) (hm : VMapOk m) (it : Item) (hit : ItemOk it) (rowSize r : Nat) :
+    (rowCount rowSize (importSetItem m it).1 r : Int)
+      = rowCount rowSize m r + (if rowOf rowSize it.key = r then ((importSetItem m it).2 : Int) else 0) := by
+  rw [importSetItem_eq m hm it hit]
+  have h1 := rowCount_put m hm rowSize it.key (unionAsc (oldOf m it.key) it.c.values) r
+  have h2 := length_unionAsc_ge (oldOf m it.key) it.c.values
+  simp only []
+  split at h1 <;> simp [*] <;> omega
+
+theorem importClearItem_rows (m : VMap) (hm : VMapOk m) (it : Item) (rowSize r : Nat) :
+    (rowCount rowSize (importClearItem m it).1 r : Int)
+      = rowCount rowSize m r - (if rowOf rowSize it.key = r then ((importClearItem m it).2 : Int) else 0) := by
+  rw [importClearItem_eq m hm it]
+  have h2 := length_diffAsc_le (oldOf m it.key) it.c.values
+  cases h : m.get? it.key with
+  | none =>
+    have ho : oldOf m it.key = [] := by simp [oldOf, h]
+    simp [ho, diffAsc]
+  | some old =>
+    have h1 := rowCount_put m hm rowSize it.key (diffAsc (oldOf m it.key) it.c.values) r
+    simp only [Option.isSome_some, ↓reduceIte]
+    split at h1 <;> simp [*] <;> omega
+
+/-- `rowSet` is exact: for every row, its entry is the number of bits the import set (minus: cleared)
+in that row. -/
+theorem importRows_spec (clear : Bool) (rowSize : Nat) (items : List Item) (m : VMap) (hm : VMapOk m)
+    (hit : ∀ it ∈ items, ItemOk it) (r : Nat) :
+    rowDelta (importRows clear rowSize m items) r
+      = (rowCount rowSize (importItems clear m items).1 r : Int) - rowCount rowSize m r := by
+  induction items generalizing m with
+  | nil => simp [importRows, importItems, rowDelta]
+  | cons it t ih =>
+    have hi := hit it (by simp)
+    cases clear with
+    | false =>
+      obtain ⟨h1, _, _⟩ := importSetItem_spec m hm it hi
+      have hr := importSetItem_rows m hm it hi rowSize r
+      have := ih (importSetItem m it).1 h1 (fun x hx => hit x (by simp [hx]))
+      simp only [importRows, importItems, Bool.false_eq_true, ↓reduceIte] at this ⊢
+      split
+      · next h0 => rw [this, hr, h0]; simp
+      · rw [rowDelta_addRow, this, hr]
+        split <;> omega
+    | true =>
+      obtain ⟨h1, _, _⟩ := importClearItem_spec m hm it hi
+      have hr := importClearItem_rows m hm it rowSize r
+      have := ih (importClearItem m it).1 h1 (fun x hx => hit x (by simp [hx]))
+      simp only [importRows, importItems, ↓reduceIte] at this ⊢
+      split
+      · next h0 => rw [this, hr, h0]; simp
+      · rw [rowDelta_addRow, this, hr]
+        split <;> omega
+
 end PV.C04
